@@ -86,8 +86,8 @@ theorem setGrid_ends (cfg : Cfg) (grid : List ℚ) (lv : List ℕ) (st : EG) (h1
           simp only [effectiveGrid] at he
           split at he
           · simp at he
-          · by_cases hfb : cfg.forceBalanced = true
-            · simp only [hfb, if_true] at he
+          · by_cases hc : (cfg.forceBalanced && decide (grid.length > 2)) = true
+            · rw [if_pos hc] at he
               cases ht : GBT.initTree grid lv with
               | none => rw [ht] at he; simp at he
               | some t =>
@@ -100,8 +100,9 @@ theorem setGrid_ends (cfg : Cfg) (grid : List ℚ) (lv : List ℕ) (st : EG) (h1
                 rw [h4] at hfl
                 simp only [Option.some.injEq, Prod.mk.injEq] at hfl
                 refine ⟨by rw [h3, hfl.1, hfl.2], fun hf => ?_⟩
-                rw [hfb] at hf; simp at hf
-            · simp only [hfb, Bool.false_eq_true, if_false, Option.some.injEq, Prod.mk.injEq] at he
+                rw [hf] at hc; simp at hc
+            · rw [if_neg hc] at he
+              simp only [Option.some.injEq, Prod.mk.injEq] at he
               obtain ⟨rfl, rfl⟩ := he
               exact ⟨hfl, fun _ => ⟨rfl, rfl⟩⟩
       · simp at h1
@@ -122,29 +123,20 @@ theorem coeff_ne_zero (a b : ℚ) (e m j : ℕ) (hab : a ≠ b) (he : 1 ≤ e) :
       sub_ne_zero.mpr (fun h => hij (node_injective a b e hab he h))
     exact div_ne_zero hn hd
 
-/-- **grouped Simpson containers, as coded**: a container of `2^(k+1)` equal consecutive slices on `[x, b]`
-    integrates an affine function to `(1 - c_{k+1,0}/3)` times its integral, `c_{k+1,0} ≠ 0` -/
-theorem simpson_container_wsum (sv : SliceVer) (s s' : Slice) (r : List Slice) (k : ℕ) (x h α β : ℚ) (hpos : 0 < h)
-    (hlen : (s :: s' :: r).length = 2 ^ (k + 1)) (hE : Equi x h (s :: s' :: r))
-    (cs : List (ℚ × ℚ)) (hc : containerContribs sv .simpson (s :: s' :: r) = some cs) :
-    wsum (fun y => α * y + β) cs
-      = (1 - coeff x (x + 2 ^ (k + 1) * h) 3 (k + 1) 0 / 3)
-          * (prim α β (x + 2 ^ (k + 1) * h) - prim α β x)
-      ∧ coeff x (x + 2 ^ (k + 1) * h) 3 (k + 1) 0 ≠ 0 := by
-  have hab : x ≠ x + 2 ^ (k + 1) * h := by
-    have : (0 : ℚ) < 2 ^ (k + 1) * h := mul_pos (pow_pos (by norm_num) _) hpos
-    linarith
-  refine ⟨?_, coeff_ne_zero _ _ 3 _ 0 hab (by norm_num)⟩
-  rw [containerContribs_wsum sv .simpson s s' r k x h α β hlen hE cs hc]
-  have ht := simpson_total x (x + 2 ^ (k + 1) * h) k hab
-  simp only [bwOf, iwOf]
-  rw [ht]
-  simp only [prim]
-  ring
-
-/-- the unrefined grid `[a, b]` with `force_balanced_refinement_tree`: `set_grid` raises -/
-theorem forceBalanced_two_points (cfg : Cfg) (a b : ℚ) (h : cfg.forceBalanced = true) :
-    weights cfg [a, b] [0, 0] = .assertSetGrid := by
-  simp [weights, setGrid, effectiveGrid, h, GBT.initTree, BTree.build, splitMin]
+/-- the unrefined grid `[a, b]`, `a < b`: every configuration (also with `force_balanced_refinement_tree`) returns
+    the trapezoidal weights -/
+theorem two_points (cfg : Cfg) (a b : ℚ) (hab : a < b) :
+    weights cfg [a, b] [0, 0] = .ok [(b - a) / 2, (b - a) / 2] := by
+  have hne : a ≠ b := ne_of_lt hab
+  have hne' : b ≠ a := fun h => hne h.symm
+  have hle : a ≤ a := le_refl a
+  have hle' : b ≥ b := le_refl b
+  obtain ⟨g, sv, cv, fb⟩ := cfg
+  have hc2 : coeff a b 2 0 0 = 1 := by simp [coeff, coeffAux]
+  cases g <;> cases sv <;> cases cv <;>
+    simp [weights, setGrid, effectiveGrid, slicesOf, ends, slicesRec, splitMin, sliceOk, Slice.maxLevel,
+      stepWidth, rpow, hab, groupRuns, adjust, isPow2, EG.weights, allContribs, containerContribs, sliceContribs,
+      rombergContribs, supportWeights, Slice.width, finalWeights, weightAt, rsum, hne, hne', hc2] <;>
+    (try field_simp) <;> (try ring_nf) <;> (try exact ⟨trivial, trivial⟩)
 
 end SparseSpace.Romberg
